@@ -8,8 +8,7 @@ from ..core import hx, unhx
 class C01(Base):
     ID = "C01"
     AREA = "parse"
-    LEMMA_FILES = ["FluentProofs/ParserBasics.lean", "FluentProofs/ParserHoareAst.lean", "FluentProofs/ParserHoareExpr.lean",
-                   "FluentProofs/ParserHoareEntry.lean"]
+    LEMMA_FILES = ["FluentProofs/ParserBasics.lean", "FluentProofs/ParserHoareAst.lean", "FluentProofs/ParserHoareExpr.lean", "FluentProofs/ParserHoareEntry.lean", "FluentProofs/ConstTieSyntax.lean"]
     RULE = ("G1 all .ftl files of the repo + YAML fixture sources + their entry chunks; G2 random well-formed ASTs under random "
             "layouts; G3 char-level mutations with a multi-byte/CR/CRLF/tab alphabet and every prefix of sampled entries; G4 "
             "token soup; G5 token x follower x context; G6 nesting depth. Non-trivial = the input produced at least one "
